@@ -929,11 +929,8 @@ class RTCSctpTransport(AsyncIOEventEmitter):
 
         # consolidate misordered entries
         self._sack_misordered.add(tsn)
-        for tsn in sorted(self._sack_misordered):
-            if tsn == tsn_plus_one(self._last_received_tsn):
-                self._last_received_tsn = tsn
-            else:
-                break
+        while tsn_plus_one(self._last_received_tsn) in self._sack_misordered:
+            self._last_received_tsn = tsn_plus_one(self._last_received_tsn)
 
         # filter out obsolete entries
         def is_obsolete(x: int) -> bool:
@@ -1139,11 +1136,8 @@ class RTCSctpTransport(AsyncIOEventEmitter):
         # advance cumulative TSN
         self._last_received_tsn = chunk.cumulative_tsn
         self._sack_misordered = set(filter(is_obsolete, self._sack_misordered))
-        for tsn in sorted(self._sack_misordered):
-            if tsn == tsn_plus_one(self._last_received_tsn):
-                self._last_received_tsn = tsn
-            else:
-                break
+        while tsn_plus_one(self._last_received_tsn) in self._sack_misordered:
+            self._last_received_tsn = tsn_plus_one(self._last_received_tsn)
 
         # filter out obsolete entries
         self._sack_duplicates = list(filter(is_obsolete, self._sack_duplicates))
@@ -1405,7 +1399,10 @@ class RTCSctpTransport(AsyncIOEventEmitter):
         """
         gaps: list[list[int]] = []
         gap_next = None
-        for tsn in sorted(self._sack_misordered):
+        for tsn in sorted(
+            self._sack_misordered,
+            key=lambda x: (x - self._last_received_tsn) % SCTP_TSN_MODULO,
+        ):
             pos = (tsn - self._last_received_tsn) % SCTP_TSN_MODULO
             if tsn == gap_next:
                 gaps[-1][1] = pos
